@@ -142,6 +142,32 @@ func c08Gen(rt *rapid.T) wProg {
 			v := gPick(rt, []string{"a", "b", "c"}, "val")
 			p.Ops = append(p.Ops, wOp{K: "fault", N: gInt(rt, 1, 2, "k")},
 				wOp{K: "set", S: s, T: gPick(rt, []string{"g0", "g0", "me"}, "dt"), A: "desc", H: map[string]any{"public": map[string]any{"fn": v}, "private": map[string]any{"c": v}}})
+		case x < 13:
+			// P2P with read/received marks and private notes on both sides; one participant unsubscribes,
+			// the topic is unloaded and loaded back by the returning participant (one subscription missing)
+			s1 := -1
+			for hs := 1; hs < len(p.Sess); hs++ {
+				if p.Sess[hs] == 1 {
+					s1 = hs
+					break
+				}
+			}
+			if s1 > 0 {
+				leaver, lt := 0, "p1"
+				if gPct(rt, 50) {
+					leaver, lt = s1, "p0"
+				}
+				p.Ops = append(p.Ops, wOp{K: "sub", S: 0, T: "p1"}, wOp{K: "sub", S: s1, T: "p0"}, wOp{K: "pub", S: 0, T: "p1"}, wOp{K: "pub", S: s1, T: "p0"}, wOp{K: "pub", S: 0, T: "p1"},
+					wOp{K: "note", S: s1, T: "p0", A: "read", N: gInt(rt, 1, 3, "r1")}, wOp{K: "note", S: 0, T: "p1", A: gPick(rt, []string{"read", "recv"}, "w0"), N: gInt(rt, 1, 3, "r0")},
+					wOp{K: "set", S: s1, T: "p0", A: "private", B: "n1"}, wOp{K: "set", S: 0, T: "p1", A: "private", B: "n0"},
+					wOp{K: "leave", S: leaver, T: lt, F: true}, wOp{K: "reload", T: "p1"}, wOp{K: "sub", S: leaver, T: lt},
+					wOp{K: "get", S: 0, T: "p1", A: "desc sub"}, wOp{K: "get", S: s1, T: "p0", A: "desc sub"})
+			}
+		case x < 16 && p.Cfg.Root:
+			// the root session changes a member's private note and own mode on the member's behalf
+			tgt := gInt(rt, 1, 2, "obotgt")
+			p.Ops = append(p.Ops, wOp{K: "sub", S: 0, T: "g0"}, wOp{K: "set", S: 0, T: "g0", A: "private", B: gPick(rt, []string{"ra", "rb"}, "oboval"), Obo: tgt + 1},
+				wOp{K: "set", S: 0, T: "g0", A: "mode", B: gPick(rt, []string{"JRWP", "JRW", "JRWPS"}, "obomode"), Obo: tgt + 1}, wOp{K: "get", S: 0, T: "g0", A: "sub"})
 		case x < 72:
 			p.Ops = append(p.Ops, anyOp())
 		case x < 84:
@@ -579,7 +605,8 @@ func (o *c08Obs) After(w *wWorld, st *wStep) *kit.Viol {
 		case strings.HasSuffix(v.Sig, ":chan-reader") && !offlineSet && !st.Fired:
 			v.Sig = "chan-reader:" + v.Sig
 		case strings.HasPrefix(v.Sig, "diverged:sub-private:") && !st.Skipped && (!st.Fired || st.ok()) && strings.Contains(d.key, st.Route) &&
-			((st.Op.K == "sub" && c08WasDeleted(o.preStore, st.Route, w, st.User)) || (st.Op.K == "set" && st.Op.A == "given" && c08WasDeleted(o.preStore, st.Route, w, st.Op.U))):
+			(((st.Op.K == "sub" || (st.Op.K == "set" && st.Op.A == "mode")) && c08WasDeleted(o.preStore, st.Route, w, st.User)) || (st.Op.K == "set" && st.Op.A == "given" && c08WasDeleted(o.preStore, st.Route, w, st.Op.U)) ||
+				(strings.HasPrefix(st.Route, "p2p") && c08Resurrected(o.preStore, mem.A.Snapshot(), st.Route, d.key))):
 			// re-subscription: the adapter keeps the private value of the soft-deleted row (undelete),
 			// the topic caches the value of the request (none)
 			v.Sig = "resubscribe-private-resurrected:" + topicKind(st.Route)
@@ -613,6 +640,26 @@ func (o *c08Obs) After(w *wWorld, st *wStep) *kit.Viol {
 }
 
 // c08WasDeleted: user u had a soft-deleted subscription row on route before the step.
+// c08Resurrected: the subscription the divergence is about was soft-deleted before the step and is
+// live after it (a P2P topic loaded by one participant re-creates the other one's subscription:
+// listed finding reload-differs:p2p-unsubscribed-peer-resubscribed-on-load).
+func c08Resurrected(pre, post *mem.State, route, key string) bool {
+	if pre == nil || post == nil {
+		return false
+	}
+	for _, a := range pre.Subs {
+		if a.Topic != route || a.DeletedAt == nil {
+			continue
+		}
+		for _, b := range post.Subs {
+			if b.Topic == route && b.User == a.User && b.DeletedAt == nil {
+				return true
+			}
+		}
+	}
+	return false
+}
+
 func c08WasDeleted(st *mem.State, route string, w *wWorld, u int) bool {
 	if st == nil || u < 0 || u >= len(w.users) {
 		return false
